@@ -13,6 +13,9 @@ Definition same_writer (s s' : estate) : Prop :=
   e_buf s' = e_buf s /\ e_berr s' = e_berr s /\ e_armed s' = e_armed s /\ e_aerr s' = e_aerr s /\
   e_delay0 s' = e_delay0 s.
 
+(* the carrier has not failed and never will by itself *)
+Definition cfine (s : estate) : Prop := e_fail s = None /\ e_wleft s = None.
+
 Lemma carrier_write_spec s bs s' r :
   carrier_write s bs = (s', r) ->
   same_writer s s' /\
@@ -42,7 +45,7 @@ Lemma bw_flush_spec s s' r :
                 (e_fail s = None -> e_fail s' = None) /\ (e_wleft s = None -> e_wleft s' = None) /\
                 (e_buf s <> [] -> e_fail s = None)
       | Some c => wire_bytes s' = wire_bytes s /\ e_buf s' = e_buf s /\ e_berr s' = Some c /\ e_buf s <> [] /\
-                  e_fail s' <> None
+                  e_fail s' <> None /\ ~ cfine s
       end
   end.
 Proof.
@@ -54,7 +57,7 @@ Proof.
         destruct (carrier_write_spec _ _ _ _ CW) as ((S1 & S2 & S3 & S4 & S5) & R);
         intros H; injection H as <- <-; cbn [set_buf set_berr e_buf e_berr e_armed e_aerr e_delay0 e_wire e_fail e_wleft wire_bytes].
       * destruct R as (R1 & R2 & R3 & R4). unfold wire_bytes in R1. rewrite S1, EB, R2.
-        repeat split; auto; discriminate.
+        repeat split; auto; try discriminate. intros [X Y]. exact (R3 X Y).
       * destruct R as (R1 & R2 & R3 & R4). unfold wire_bytes in R1.
         repeat split; auto. congruence.
 Qed.
@@ -65,13 +68,14 @@ Lemma bw_direct_spec s p s' r :
   match r with
   | None => wire_bytes s' = wire_bytes s ++ p /\ e_berr s' = None /\
             (e_fail s = None -> e_fail s' = None) /\ (e_wleft s = None -> e_wleft s' = None)
-  | Some c => wire_bytes s' = wire_bytes s /\ e_berr s' = Some c /\ e_fail s' <> None
+  | Some c => wire_bytes s' = wire_bytes s /\ e_berr s' = Some c /\ e_fail s' <> None /\ ~ cfine s
   end.
 Proof.
   intros B. unfold bw_direct. destruct (carrier_write s p) as [s1 [c|]] eqn:CW;
     destruct (carrier_write_spec _ _ _ _ CW) as ((S1 & S2 & S3 & S4 & S5) & R);
     intros H; injection H as <- <-; cbn [set_berr e_buf e_berr e_armed e_aerr e_delay0 e_wire e_fail e_wleft wire_bytes].
-  - destruct R as (R1 & R2 & _). unfold wire_bytes in R1. rewrite R2. repeat split; auto. discriminate.
+  - destruct R as (R1 & R2 & R3 & _). unfold wire_bytes in R1. rewrite R2. repeat split; auto; try discriminate.
+    intros [X Y]. exact (R3 X Y).
   - destruct R as (R1 & R2 & R3 & R4). unfold wire_bytes in R1. rewrite S2, B. repeat split; auto.
 Qed.
 
@@ -84,7 +88,7 @@ Lemma bw_write_spec s p s' r :
   match r with
   | None => wire_bytes s' ++ e_buf s' = wire_bytes s ++ e_buf s ++ p /\ e_berr s' = None /\
             (e_fail s = None -> e_fail s' = None) /\ (e_wleft s = None -> e_wleft s' = None)
-  | Some c => e_berr s' = Some c /\ e_fail s' <> None /\
+  | Some c => e_berr s' = Some c /\ e_fail s' <> None /\ ~ cfine s /\
               exists rest, wire_bytes s' ++ rest = wire_bytes s ++ e_buf s ++ p
   end.
 Proof.
@@ -95,7 +99,7 @@ Proof.
   destruct (e_buf s) as [|b0 bt] eqn:EB; cbn [is_nil].
   { intros H. destruct (bw_direct_spec _ _ _ _ B H) as (D1 & D2 & D3 & D4 & D5).
     repeat split; auto. destruct r as [c|].
-    - destruct D5 as (E1 & E2 & E3). repeat split; auto. exists p. rewrite E1. reflexivity.
+    - destruct D5 as (E1 & E2 & E3 & E4). repeat split; auto. exists p. rewrite E1. reflexivity.
     - destruct D5 as (E1 & E2 & E3 & E4). rewrite D1, EB, E1. cbn [app]. rewrite app_nil_r.
       repeat split; auto. }
   set (k := wcap - len (b0 :: bt)).
@@ -103,7 +107,7 @@ Proof.
   assert (B0 : e_berr s0 = None) by exact B.
   destruct (bw_flush s0) as [s1 [c|]] eqn:FL;
     pose proof (bw_flush_spec _ _ _ FL) as (A1 & A2 & A3 & A4); rewrite B0 in A4.
-  - intros H; injection H as <- <-. destruct A4 as (E1 & E2 & E3 & E4 & E5).
+  - intros H; injection H as <- <-. destruct A4 as (E1 & E2 & E3 & E4 & E5 & E6).
     repeat split; auto. exists (b0 :: bt ++ p). rewrite E1. reflexivity.
   - destruct A4 as (E1 & E2 & E3 & E4 & E5 & E6).
     assert (W1 : wire_bytes s1 ++ dropN k p = wire_bytes s ++ (b0 :: bt) ++ p).
@@ -115,7 +119,9 @@ Proof.
       repeat split; auto.
     + intros H. destruct (bw_direct_spec _ _ _ _ E3 H) as (D1 & D2 & D3 & D4 & D5).
       rewrite D2, D3, D4. repeat split; auto. destruct r as [c|].
-      * destruct D5 as (G1 & G2 & G3). repeat split; auto. exists (dropN k p). rewrite G1. exact W1.
+      * destruct D5 as (G1 & G2 & G3 & G4). repeat split; auto.
+        { intros [X Y]. apply G4. split; [apply E4; exact X|apply E5; exact Y]. }
+        exists (dropN k p). rewrite G1. exact W1.
       * destruct D5 as (G1 & G2 & G3 & G4). rewrite D1, E2, app_nil_r, G1. repeat split; auto.
 Qed.
 
@@ -144,7 +150,7 @@ Lemma mw_write_spec s p flush s' r :
                     e_armed s' = negb (is_nil (e_buf s')) /\
                     (flush = true \/ e_delay0 s = true -> e_buf s' = []) /\
                     (e_fail s = None -> e_fail s' = None) /\ (e_wleft s = None -> e_wleft s' = None)
-          | Some c => e_berr s' = Some c /\ e_fail s' <> None /\
+          | Some c => e_berr s' = Some c /\ e_fail s' <> None /\ ~ cfine s /\
                       exists rest, wire_bytes s' ++ rest = wire_bytes s ++ e_buf s ++ p
           end
       end
@@ -171,7 +177,7 @@ Proof.
                match r1 with
                | None => wire_bytes s1 ++ e_buf s1 = wire_bytes s ++ e_buf s ++ p /\ e_berr s1 = None /\
                          (e_fail s = None -> e_fail s1 = None) /\ (e_wleft s = None -> e_wleft s1 = None)
-               | Some c => e_berr s1 = Some c /\ e_fail s1 <> None /\
+               | Some c => e_berr s1 = Some c /\ e_fail s1 <> None /\ ~ cfine s /\
                            exists rest, wire_bytes s1 ++ rest = wire_bytes s ++ e_buf s ++ p
                end).
     { destruct p as [|b0 bt]; cbn [is_nil].
@@ -186,8 +192,10 @@ Proof.
     + destruct (bw_flush s1) as [s2 r2] eqn:FL.
       pose proof (bw_flush_spec _ _ _ FL) as (A1 & A2 & A3 & A4). rewrite V2 in A4.
       destruct r2 as [c|].
-      * intros H; injection H as <- <-. destruct A4 as (E1 & E2 & E3 & E4 & E5).
-        rewrite A2, A3, W2, W3, A. repeat split; auto. exists (e_buf s1). rewrite E1. exact V1.
+      * intros H; injection H as <- <-. destruct A4 as (E1 & E2 & E3 & E4 & E5 & E6).
+        rewrite A2, A3, W2, W3, A. repeat split; auto.
+        { intros [X Y]. apply E6. split; [apply V3; exact X|apply V4; exact Y]. }
+        exists (e_buf s1). rewrite E1. exact V1.
       * intros H; injection H as <- <-. destruct A4 as (E1 & E2 & E3 & E4 & E5 & E6).
         cbn [set_armed e_buf e_berr e_armed e_aerr e_delay0 e_wire e_fail e_wleft].
         change (wire_bytes (set_armed s2 _)) with (wire_bytes s2).
@@ -197,4 +205,225 @@ Proof.
       change (wire_bytes (set_armed s1 _)) with (wire_bytes s1).
       rewrite W2, W3, A. repeat split; auto.
       intros [X|X]; [subst flush; discriminate|]. rewrite W3, X, orb_true_r in FD. discriminate.
+Qed.
+
+(* mercury.Writer.flush (timer) *)
+Lemma mw_timer_spec s :
+  let s' := mw_timer s in
+  e_delay0 s' = e_delay0 s /\ e_armed s' = false /\
+  match e_berr s with
+  | Some c => wire_bytes s' = wire_bytes s /\ e_buf s' = e_buf s /\ e_berr s' = Some c /\ e_aerr s' <> None /\
+              e_fail s' = e_fail s
+  | None =>
+      (wire_bytes s' = wire_bytes s ++ e_buf s /\ e_buf s' = [] /\ e_berr s' = None /\ e_aerr s' = e_aerr s /\
+       (e_fail s = None -> e_fail s' = None) /\ (e_wleft s = None -> e_wleft s' = None) /\
+       (e_buf s <> [] -> e_fail s = None))
+      \/ (wire_bytes s' = wire_bytes s /\ e_buf s' = e_buf s /\ e_berr s' <> None /\ e_aerr s' <> None /\
+          e_buf s <> [] /\ e_fail s' <> None /\ ~ cfine s)
+  end.
+Proof.
+  unfold mw_timer. set (s0 := set_armed s false).
+  destruct (bw_flush s0) as [s1 r] eqn:FL.
+  pose proof (bw_flush_spec _ _ _ FL) as (A1 & A2 & A3 & A4).
+  change (e_berr s0) with (e_berr s) in A4. change (e_armed s0) with false in A1.
+  change (e_aerr s0) with (e_aerr s) in A2. change (e_delay0 s0) with (e_delay0 s) in A3.
+  change (wire_bytes s0) with (wire_bytes s) in A4. change (e_buf s0) with (e_buf s) in A4.
+  change (e_fail s0) with (e_fail s) in A4. change (e_wleft s0) with (e_wleft s) in A4.
+  destruct (e_berr s) as [cb|] eqn:B.
+  - destruct A4 as [-> ->]. cbn zeta.
+    destruct (e_aerr s0) as [ca|] eqn:AE; cbn [is_some].
+    + split; [reflexivity|]. split; [reflexivity|]. change (e_berr s0) with (e_berr s). rewrite B.
+      repeat split; try reflexivity. rewrite AE. discriminate.
+    + split; [reflexivity|]. split; [reflexivity|].
+      cbn [set_aerr e_buf e_berr e_armed e_aerr e_delay0 e_wire e_fail e_wleft]. change (e_berr s0) with (e_berr s). rewrite B.
+      repeat split; try reflexivity. discriminate.
+  - destruct r as [c|]; cbn zeta.
+    + destruct A4 as (E1 & E2 & E3 & E4 & E5 & E6).
+      destruct (e_aerr s1) as [ca|] eqn:AE; cbn [is_some].
+      * split; [exact A3|]. split; [exact A1|]. right. rewrite E3, AE. repeat split; auto; discriminate.
+      * split; [exact A3|]. split; [exact A1|]. right.
+        cbn [set_aerr e_buf e_berr e_armed e_aerr e_delay0 e_wire e_fail e_wleft].
+        change (wire_bytes (set_aerr s1 (Some c))) with (wire_bytes s1). rewrite E3. repeat split; auto; discriminate.
+    + destruct A4 as (E1 & E2 & E3 & E4 & E5 & E6).
+      split; [exact A3|]. split; [exact A1|]. left. repeat split; auto.
+Qed.
+
+(* a carrier that refuses writes: a write that has to reach it fails *)
+Lemma carrier_write_dead st bs c : e_fail st = Some c -> carrier_write st bs = (st, Some c).
+Proof. intros Fs. unfold carrier_write. now rewrite Fs. Qed.
+
+Lemma dead_carrier_bw_write s p s' c :
+  e_fail s = Some c -> bw_write s p = (s', None) -> p <> [] ->
+  e_fail s' = Some c /\ e_buf s' <> [] /\ e_berr s' = None.
+Proof.
+  intros F H Hp. unfold bw_write in H. destruct (e_berr s) as [cb|] eqn:B; [discriminate|].
+  destruct (len p <=? wcap - len (e_buf s)).
+  { injection H as <-. cbn [set_buf e_buf e_fail e_berr]. repeat split; auto.
+    intros X. apply app_eq_nil in X. destruct X; contradiction. }
+  destruct (e_buf s) as [|x xs] eqn:EB; cbn [is_nil] in H.
+  { unfold bw_direct in H. rewrite (carrier_write_dead _ _ _ F) in H. discriminate. }
+  unfold bw_flush in H. cbn [set_buf e_berr e_buf app] in H. rewrite B in H.
+  erewrite carrier_write_dead in H by exact F. discriminate.
+Qed.
+
+Lemma dead_carrier_flush s s' c :
+  e_fail s = Some c -> e_buf s <> [] -> bw_flush s = (s', None) -> False.
+Proof.
+  intros F Hb H. unfold bw_flush in H. destruct (e_berr s); [discriminate|].
+  destruct (e_buf s) as [|x xs]; [contradiction|].
+  rewrite (carrier_write_dead _ _ _ F) in H. discriminate.
+Qed.
+
+(* a flushed write of a non-empty packet to a writer whose carrier refuses writes fails *)
+Lemma dead_carrier_flushed_write s p flush s' r c :
+  e_fail s = Some c -> p <> [] -> flush = true \/ e_delay0 s = true ->
+  mw_write s p flush = (s', r) -> r <> None.
+Proof.
+  intros F Hp Hf H. unfold mw_write in H. destruct (e_aerr s); [injection H as <- <-; discriminate|].
+  destruct p as [|b0 bt]; [contradiction|]. cbn [is_nil] in H.
+  destruct (bw_write s (b0 :: bt)) as [s1 [c1|]] eqn:BW; [injection H as <- <-; discriminate|].
+  destruct (dead_carrier_bw_write _ _ _ _ F BW Hp) as (F1 & B1 & _).
+  assert (D : e_delay0 s1 = e_delay0 s).
+  { destruct (e_berr s) as [cb|] eqn:B.
+    - rewrite (bw_write_dead _ _ _ B) in BW. discriminate.
+    - pose proof (bw_write_spec _ _ _ _ B BW) as (_ & _ & D & _). exact D. }
+  replace (flush || e_delay0 s1) with true in H by (rewrite D; destruct Hf as [->| ->]; [reflexivity|now rewrite orb_true_r]).
+  destruct (bw_flush s1) as [s2 [c2|]] eqn:FL; [injection H as <- <-; discriminate|].
+  exfalso. exact (dead_carrier_flush _ _ _ F1 B1 FL).
+Qed.
+
+
+(* ---------------------------------------------------------------- without carrier failure *)
+
+Definition healthy (s : estate) : Prop :=
+  e_berr s = None /\ e_aerr s = None /\ cfine s.
+
+Definition ev_bytes (ev : eev) : list byte :=
+  match ev with EvWrite (Some bs) _ => bs | _ => [] end.
+
+(* the events after which nothing may be left in the buffer *)
+Definition ev_flushes (s : estate) (ev : eev) : Prop :=
+  match ev with
+  | EvWrite (Some _) async => async = false \/ e_delay0 s = true
+  | EvFlush | EvTimer => True
+  | _ => False
+  end.
+
+Definition ev_nofail (ev : eev) : Prop := match ev with EvFail _ => False | _ => True end.
+
+Lemma healthy_step s ev s' r :
+  healthy s -> ev_nofail ev -> enc_step s ev = (s', r) ->
+  healthy s' /\ wire_bytes s' ++ e_buf s' = wire_bytes s ++ e_buf s ++ ev_bytes ev /\
+  (forall c, r <> ERErr c) /\ (ev_flushes s ev -> e_buf s' = []).
+Proof.
+  intros (B & A & F & W) NF H. destruct ev as [[bs|] async| | |c|z]; cbn [enc_step ev_bytes ev_flushes] in *.
+  - destruct (mw_write s bs (negb async)) as [s1 r1] eqn:MW. injection H as <- <-.
+    pose proof (mw_write_spec _ _ _ _ _ MW) as (D & M). rewrite A, B in M. destruct M as (A1 & M).
+    destruct r1 as [c|].
+    + exfalso. destruct M as (_ & _ & NC & _). apply NC. split; assumption.
+    + destruct M as (M1 & M2 & M3 & M4 & M5 & M6). split; [|split; [|split]].
+      * split; [exact M2|]. split; [exact A1|]. split; auto.
+      * exact M1.
+      * discriminate.
+      * intros [->|X]; apply M4; auto.
+  - injection H as <- <-. rewrite app_nil_r. split; [|split; [|split]]; [repeat split; auto|reflexivity|discriminate|intros []].
+  - destruct (mw_write s [] true) as [s1 r1] eqn:MW. injection H as <- <-.
+    pose proof (mw_write_spec _ _ _ _ _ MW) as (D & M). rewrite A, B in M. destruct M as (A1 & M).
+    destruct r1 as [c|].
+    + exfalso. destruct M as (_ & _ & NC & _). apply NC. split; assumption.
+    + destruct M as (M1 & M2 & M3 & M4 & M5 & M6). split; [|split; [|split]].
+      * split; [exact M2|]. split; [exact A1|]. split; auto.
+      * exact M1.
+      * discriminate.
+      * intros _. apply M4. auto.
+  - injection H as <- <-. pose proof (mw_timer_spec s) as (D & AR & T). rewrite B in T.
+    destruct T as [(T1 & T2 & T3 & T4 & T5 & T6 & T7)|(_ & _ & _ & _ & _ & _ & NC)].
+    + split; [|split; [|split]].
+      * split; [exact T3|]. split; [rewrite T4; exact A|]. split; auto.
+      * rewrite T1, T2, !app_nil_r. reflexivity.
+      * discriminate.
+      * intros _. exact T2.
+    + exfalso. apply NC. split; assumption.
+  - contradiction.
+  - injection H as <- <-. rewrite app_nil_r.
+    split; [|split; [|split]]; [repeat split; auto|reflexivity|discriminate|intros []].
+Qed.
+
+Definition written (evs : list eev) : list byte := concat (map ev_bytes evs).
+
+(* C03_wire_is_concat: without carrier failure, whatever the mix of sync / async
+   writes, flushes, timer firings and delay changes: wire ++ buffer is exactly
+   the concatenation of the encodings written, in order; no operation fails *)
+Theorem wire_is_concat evs : forall s s' rs,
+  healthy s -> Forall ev_nofail evs -> enc_run s evs = (s', rs) ->
+  healthy s' /\ wire_bytes s' ++ e_buf s' = wire_bytes s ++ e_buf s ++ written evs /\
+  Forall (fun r => forall c, r <> ERErr c) rs.
+Proof.
+  induction evs as [|ev evs IH]; intros s s' rs Hs NF H; cbn [enc_run] in H.
+  - injection H as <- <-. unfold written. cbn [map concat]. rewrite app_nil_r. auto.
+  - destruct (enc_step s ev) as [s1 r] eqn:ST. destruct (enc_run s1 evs) as [s2 rs'] eqn:RN.
+    injection H as <- <-. inversion NF as [|? ? NF1 NF2]; subst.
+    destruct (healthy_step _ _ _ _ Hs NF1 ST) as (H1 & E1 & R1 & _).
+    destruct (IH _ _ _ H1 NF2 RN) as (H2 & E2 & R2).
+    split; [exact H2|]. split; [|constructor; assumption].
+    rewrite E2, app_assoc, E1. unfold written. cbn [map concat]. rewrite <- !app_assoc. reflexivity.
+Qed.
+
+(* … and nothing is left in the buffer after a sync write, a Flush or a timer firing
+   (or any write while the delay is zero) *)
+Theorem flushed_after evs ev : forall s s1 rs s' r,
+  healthy s -> Forall ev_nofail evs -> ev_nofail ev -> enc_run s evs = (s1, rs) ->
+  enc_step s1 ev = (s', r) -> ev_flushes s1 ev ->
+  e_buf s' = [] /\ wire_bytes s' = wire_bytes s ++ e_buf s ++ written (evs ++ [ev]).
+Proof.
+  intros s s1 rs s' r Hs NF NF1 RN ST FL.
+  destruct (wire_is_concat _ _ _ _ Hs NF RN) as (H1 & E1 & _).
+  destruct (healthy_step _ _ _ _ H1 NF1 ST) as (_ & E2 & _ & Z). specialize (Z FL).
+  split; [exact Z|]. rewrite Z, app_nil_r in E2. rewrite E2, app_assoc, E1.
+  unfold written. rewrite map_app, concat_app. cbn [map concat]. rewrite app_nil_r, <- !app_assoc. reflexivity.
+Qed.
+
+Lemma healthy_init d0 : healthy (einit d0 None).
+Proof. repeat split. Qed.
+
+(* ---------------------------------------------------------------- a dead carrier stays dead *)
+
+Lemma bw_flush_fail_sticky s s' r c : e_fail s = Some c -> bw_flush s = (s', r) -> e_fail s' = Some c.
+Proof.
+  intros F H. unfold bw_flush in H. destruct (e_berr s); [injection H as <- <-; exact F|].
+  destruct (e_buf s); [injection H as <- <-; exact F|].
+  rewrite (carrier_write_dead _ _ _ F) in H. injection H as <- <-. exact F.
+Qed.
+
+Lemma bw_write_fail_sticky s p s' r c : e_fail s = Some c -> bw_write s p = (s', r) -> e_fail s' = Some c.
+Proof.
+  intros F H. unfold bw_write in H. destruct (e_berr s); [injection H as <- <-; exact F|].
+  destruct (len p <=? wcap - len (e_buf s)); [injection H as <- <-; exact F|].
+  destruct (is_nil (e_buf s)).
+  { unfold bw_direct in H. rewrite (carrier_write_dead _ _ _ F) in H. injection H as <- <-. exact F. }
+  destruct (bw_flush (set_buf s (e_buf s ++ takeN (wcap - len (e_buf s)) p))) as [s1 [c1|]] eqn:FL.
+  - injection H as <- <-. exact (bw_flush_fail_sticky (set_buf s _) _ _ _ F FL).
+  - pose proof (bw_flush_fail_sticky (set_buf s _) _ _ _ F FL) as F1.
+    destruct (len (dropN (wcap - len (e_buf s)) p) <=? wcap); [injection H as <- <-; exact F1|].
+    unfold bw_direct in H. rewrite (carrier_write_dead _ _ _ F1) in H. injection H as <- <-. exact F1.
+Qed.
+
+Lemma mw_write_fail_sticky s p fl s' r c : e_fail s = Some c -> mw_write s p fl = (s', r) -> e_fail s' = Some c.
+Proof.
+  intros F H. unfold mw_write in H. destruct (e_aerr s); [injection H as <- <-; exact F|].
+  destruct (if is_nil p then (s, None) else bw_write s p) as [s1 r1] eqn:W.
+  assert (F1 : e_fail s1 = Some c).
+  { destruct (is_nil p); [injection W as <- <-; exact F|exact (bw_write_fail_sticky _ _ _ _ _ F W)]. }
+  destruct r1; [injection H as <- <-; exact F1|].
+  destruct (if fl || e_delay0 s1 then bw_flush s1 else (s1, None)) as [s2 r2] eqn:W2.
+  assert (F2 : e_fail s2 = Some c).
+  { destruct (fl || e_delay0 s1); [exact (bw_flush_fail_sticky _ _ _ _ F1 W2)|injection W2 as <- <-; exact F1]. }
+  destruct r2; injection H as <- <-; exact F2.
+Qed.
+
+Lemma mw_timer_fail_sticky s c : e_fail s = Some c -> e_fail (mw_timer s) = Some c.
+Proof.
+  intros F. unfold mw_timer. destruct (bw_flush (set_armed s false)) as [s1 r] eqn:FL.
+  pose proof (bw_flush_fail_sticky _ _ _ _ (F : e_fail (set_armed s false) = Some c) FL) as F1.
+  destruct r; [destruct (is_some (e_aerr s1))|]; exact F1.
 Qed.
